@@ -176,13 +176,14 @@ class ReadBytesAbs(Contract):
     def apply(self, interp, fn, args, kwargs):
         c = ctx()
         b = self.bind(fn, args, kwargs)
-        c.calls_log.append((self.target, b, None))
         f = b["self"].ghost.get("file")
         if f is None:
             f = SBytes.fresh(c, c.fresh_name("shardfile"), inp=False)
             b["self"].ghost["file"] = f
         off, ln = b["offset"], b["length"]
-        return SBytes(ln, lambda i: f.fn(off + i))
+        out = SBytes(ln, lambda i: f.fn(off + i))
+        c.calls_log.append((self.target, b, out))
+        return out
 
 
 @register
